@@ -23,7 +23,7 @@ import (
 type c10FieldExpr struct{ Field, Operator, Value string }
 
 type c10Kube struct {
-	Name, ApiVersion, Kind string
+	Name, ApiVersion, Kind  string
 	ExecEvents, WatchEvents *[]string
 	Sync, Wait, Keep        *bool
 	NameSel                 *[]string
@@ -376,6 +376,7 @@ func c10TokStr(s string) string {
 	}
 	return strings.NewReplacer(" ", "+", "\t", "+", "\n", "+").Replace(s)
 }
+
 // c10TokCron keeps the crontab text exact: only the blank is replaced (by `␣`).
 func c10TokCron(s string) string {
 	if s == "" {
@@ -500,7 +501,9 @@ type c10ConvPT struct {
 	Rules [][2]string
 }
 
-func (c c10Conv) pt() string { return c10Digest(c10ConvPT{c.CrdName, append([][2]string{}, c.Rules...)}) }
+func (c c10Conv) pt() string {
+	return c10Digest(c10ConvPT{c.CrdName, append([][2]string{}, c.Rules...)})
+}
 
 // ------------------------------------------------------------------ parser oracles
 
